@@ -113,6 +113,9 @@ def build_one(cfg, profile='rel', quiet=True):
     elif profile == 'chk':
         cmd += ['--profile', 'chk']
         outdir = 'chk'
+    elif profile == 'cg1':
+        cmd += ['--profile', 'cg1']
+        outdir = 'cg1'
     elif profile == 'bnd':
         # release build with the limb-bound monitor compiled into the vector kernels
         cmd.append('--release')
